@@ -330,9 +330,15 @@ def h_lemma(h):
     the justification of the merged evaluation used in the other cases."""
     T = h.m.svg_types
     seq = h.pick(["Ml", "Mcz", "MlL", "Mq", "MA"], "seq")
-    seq2 = h.pick(["same", "Ml", "Mz"], "seq2")
+    seq2 = h.pick(["same", "Ml", "Mz", "swapcase_all", "swapcase_last", "swapcase_first"], "seq2")
     d1, c1 = build(h, seq, "a")
-    d2, c2 = build(h, seq if seq2 == "same" else seq2, "b")
+    other = {
+        "same": seq,
+        "swapcase_all": seq[0] + seq[1:].swapcase(),  # same letters up to case: a different outline
+        "swapcase_last": seq[:-1] + seq[-1].swapcase(),
+        "swapcase_first": seq[0].swapcase() + seq[1:],
+    }.get(seq2, seq2)
+    d2, c2 = build(h, other, "b")
     tol = h.real("tol")
     p, q = T.SVGPath(d=d1), T.SVGPath(d=d2)
     orig = getattr(T.SVGShape, "_orig_almost_equals", T.SVGShape.almost_equals)
